@@ -412,6 +412,12 @@ def call_requests(calls, by_array, rng, want_blocks=True):
                 if src is None or len(src) < 2 or src[1] is None or len(src[1].shape) != 2:
                     continue
                 add(fn, "qr3|%s|%s" % (enc_chunks(q1.chunks), enc_nats(src[1].shape)), res)
+            elif fn == "arg_reduction":
+                x = a[0]
+                axis = kw.get("axis")
+                child = next((c2 for c2 in calls if c2["parent"] == c["id"] and c2["fn"] == "_map_blocks"), None)
+                if isinstance(axis, int) and child is not None and isinstance(child["result"], ArrayMeta):
+                    add(fn, "argmap|%s|%d" % (enc_chunks(x.chunks), axis), child["result"])
             elif fn == "reduction":
                 x = a[0]
                 axis = kw.get("axis")
@@ -851,12 +857,6 @@ def classify_mismatches(calls, mismatches):
                 outc = set(res_.chunks)
                 if any(ch not in outc and ch != (1,) for s in src for ch in s.chunks):
                     zero_site.add(res_.name)
-        elif fn == "_map_blocks":
-            parent = byid.get(c["parent"])
-            if parent is not None and parent["fn"] == "arg_reduction":
-                ax = parent["kwargs"].get("axis")
-                if isinstance(ax, int) and ax < 0 and isinstance(res_, ArrayMeta):
-                    site[res_.name] = "argreduce-negative-axis"
 
     def nelems(shape):
         n = 1
@@ -1045,9 +1045,6 @@ TRIGGERS = {
     "zero-size-rechunk-skipped": {"inputs": [{"shape": [2, 0], "chunks": [1, 1], "dtype": "float64", "data": "arange", "salt": 0},
                                              {"shape": [2, 0], "chunks": [2, 1], "dtype": "float64", "data": "arange", "salt": 1}],
                                   "ops": [{"op": "add", "family": "binary", "in": [0, 1], "params": {"_k": "binary"}}], "outputs": [2]},
-    "argreduce-negative-axis": {"inputs": [{"shape": [6], "chunks": [3], "dtype": "int64", "data": "arange", "salt": 0}],
-                                "ops": [{"op": "argmax", "family": "argreduce", "in": [0],
-                                         "params": {"axis": -1, "keepdims": False, "split_every": None}}], "outputs": [1]},
 }
 
 # triggers of repaired defects: must hold now (declined while building, or every block matches its region)
@@ -1062,6 +1059,14 @@ REGRESSIONS = {
     "stack-mixed-chunks-swapped (fixed f3856f5)": {"inputs": [{"shape": [5], "chunks": [1], "dtype": "int64", "data": "arange", "salt": 0},
                                                               {"shape": [5], "chunks": [3], "dtype": "int64", "data": "arange", "salt": 1}],
                                                    "ops": [{"op": "stack", "family": "stack", "in": [0, 1, 0], "params": {"axis": 1}}], "outputs": [2]},
+    "argreduce-negative-axis 1-d (fixed b0bb103)": {"inputs": [{"shape": [6], "chunks": [3], "dtype": "int64", "data": "perm:3", "salt": 0}],
+                                                    "ops": [{"op": "argmax", "family": "argreduce", "in": [0],
+                                                             "params": {"axis": -1, "keepdims": False, "split_every": None}}], "outputs": [1]},
+    "argreduce-negative-axis 2-d keepdims (fixed b0bb103)": {"inputs": [{"shape": [5, 7], "chunks": [2, 3], "dtype": "float64", "data": "perm:5", "salt": 0}],
+                                                             "ops": [{"op": "argmin", "family": "argreduce", "in": [0],
+                                                                      "params": {"axis": -2, "keepdims": True, "split_every": 2}},
+                                                                     {"op": "argmax", "family": "argreduce", "in": [0],
+                                                                      "params": {"axis": -1, "keepdims": False, "split_every": None}}], "outputs": [1, 2]},
     "scan-ragged-groups (fixed 5fff6ae)": {"inputs": [{"shape": [7], "chunks": [1], "dtype": "int64", "data": "arange", "salt": 0}],
                                            "ops": [{"op": "cumulative_sum", "family": "cumulative", "in": [0], "params": {"axis": 0}}], "outputs": [1]},
 }
@@ -1181,8 +1186,45 @@ def family_programs(ctx, k):
                 break
 
 
+def argreduce_regressions(ctx):
+    """argmax / argmin / nanargmax / nanargmin with axis -1, -2 and keepdims both ways (fixed b0bb103): every block matches
+    its region, every intermediate's declared chunks are what is computed, the result has NumPy's shape and values."""
+    import numpy as np
+
+    import cubed
+    import cubed.array_api as xp
+    an = (np.arange(35, dtype="float64").reshape(5, 7) * 7) % 11
+    for name in ("argmax", "argmin", "nanargmax", "nanargmin"):
+        f = getattr(xp, name, None) or getattr(cubed, name)
+        for axis in (-1, -2):
+            for kd in (False, True):
+                case = {"function": name, "axis": axis, "keepdims": kd, "shape": [5, 7], "chunks": [2, 3]}
+                try:
+                    x = xp.asarray(an, chunks=(2, 3), spec=_spec())
+                    r = f(x, axis=axis, keepdims=kd)
+                except Exception as e:  # noqa: BLE001
+                    ctx.fail("repaired defect is back (argreduce-negative-axis): %s raises %r" % (name, e), case, key=None)
+                    continue
+                declared = (tuple(r.shape), r.chunks)
+                ex, res, err = run_recorded([r], optimize=False)
+                ctx.count({"regression": case}, nontrivial=True, kind="regression:argreduce")
+                ref = getattr(np, name)(an, axis=axis, keepdims=kd)
+                if ex.mismatches:
+                    m = ex.mismatches[0]
+                    ctx.fail("repaired defect is back (argreduce-negative-axis): block of shape %s for out coords %s of %s, region %s"
+                             % (m["block"], list(m["coords"]), m["array"], m["region"]), case, key=None)
+                elif err is not None:
+                    ctx.fail("repaired defect is back (argreduce-negative-axis): a task fails: " + err, case, key=None)
+                else:
+                    v = np.asarray(res[r.name])
+                    if declared[0] != tuple(v.shape) or tuple(v.shape) != tuple(ref.shape) or not np.array_equal(v, ref):
+                        ctx.fail("%s(axis=%d, keepdims=%s): declared shape %s, computed %s, NumPy %s (values equal: %s)"
+                                 % (name, axis, kd, declared[0], v.shape, ref.shape, np.array_equal(v, ref)), case, key=None)
+
+
 def oracle(ctx):
     _quiet()
+    argreduce_regressions(ctx)
     ctx.notes.append("dtype reference: " + DTYPE_RULES)
     known_triggers(ctx)
     dtype_sweep(ctx, ctx.budget(0.1, 0.5))
